@@ -166,6 +166,7 @@ def fill_exact(world: World, f: Func, call: ast.Call) -> str:
         return f"{f.name} has no normal return"
     # shape B counts from the initial value of its offset variable: a parameter (the window starts there) or a local 0
     start_b: t.Optional[ast.expr] = None
+    local_start = False
     if off_name is not None:
         inside_b = {id(n) for n in ast.walk(loop)}
         if off_name in f.params:
@@ -175,9 +176,11 @@ def fill_exact(world: World, f: Func, call: ast.Call) -> str:
         else:
             inits = [n for n in body_nodes(f.node) if isinstance(n, ast.Assign) and id(n) not in inside_b and off_name in [unparse(x) for x in n.targets]]
             if len(inits) != 1 or not (isinstance(inits[0].value, ast.Constant) and inits[0].value.value == 0):
-                return f"the read loop counts from {off_name}, which does not start at 0"
+                local_start = True  # fine for a loop written in line (its window is computed from the state), not for a helper summary
     if v not in f.params:
         reg = _derived_view(f, v, loop)
+        if reg is not None and local_start:
+            return f"the read loop counts from {off_name}, which does not start at 0"
         if reg is not None and start_b is not None:
             reg = (reg[0], start_b) if reg[1] is None else None
         if reg is not None:
@@ -185,6 +188,8 @@ def fill_exact(world: World, f: Func, call: ast.Call) -> str:
             return f"ok:{f.name}({reg[0]}) fills {reg[0]}[{unparse(reg[1]) if reg[1] is not None else ''}:] completely or raises ({cert[0].why})"
         INLINE.setdefault(f.qual, []).append((loop, v, off_name))
         return "ok:inline read-until-complete loop (EOF raises, exit only when full)"
+    if local_start:
+        return f"the read loop counts from {off_name}, which does not start at 0"
     REGIONS[f.qual] = (v, start_b)
     return f"ok:{f.name}({v}) fills {v}[{unparse(start_b) if start_b is not None else ''}:] completely or raises ({cert[0].why})"
 
